@@ -50,7 +50,7 @@ func c05Gen(t *rapid.T) c05Case {
 	n := len(c.World.Layout.Meta.Layout.Steps)
 	if rapid.IntRange(0, 2).Draw(t, "hasdiff") > 0 {
 		c.Diff = &c05Diff{Step: rapid.IntRange(0, n-1).Draw(t, "diffstep"), Link: rapid.IntRange(0, 3).Draw(t, "difflink"),
-			Kind: rapid.SampledFrom([]string{"add-material", "drop-product", "digest", "alg-name", "add-alg", "rename-path"}).Draw(t, "diffkind")}
+			Kind: rapid.SampledFrom([]string{"add-material", "drop-product", "digest", "alg-name", "add-alg", "rename-path", "respell-path", "respell-path"}).Draw(t, "diffkind")}
 	}
 	if rapid.Bool().Draw(t, "hasdecoy") {
 		c.Decoy = &c05Decoy{Step: rapid.IntRange(0, n-1).Draw(t, "decoystep"), Kind: rapid.SampledFrom([]string{"unauthorised", "tampered", "unsigned"}).Draw(t, "decoykind"),
@@ -181,6 +181,21 @@ func c05Run(c c05Case, r *hx.Rec) error {
 			diffApplied = kind
 		case "add-alg":
 			l.Products[prods[0]]["sha512"] = "cd"
+			diffApplied = kind
+		case "respell-path":
+			// the same file under another spelling of its path: the links do not report identical products
+			// (with a single link there is nothing to disagree with, and how a lone un-clean name is
+			// treated by the rules is outside this property)
+			if len(idx) < 2 {
+				break
+			}
+			p := prods[len(prods)-1]
+			alt := []string{"./" + p, "x/../" + p, strings.Replace(p, "/", "//", 1)}[c.Diff.Link%3]
+			if alt == p {
+				alt = "./" + p
+			}
+			l.Products[alt] = l.Products[p]
+			delete(l.Products, p)
 			diffApplied = kind
 		case "rename-path":
 			l.Products[prods[len(prods)-1]+"2"] = l.Products[prods[len(prods)-1]]
